@@ -53,6 +53,13 @@ func (coordC13) Check(w *coordWorld, st *coordStep) []xstate.Violation {
 			if tp := coordOffsetsDiff(st.PreOff, st.PostOff); tp != "" {
 				out = append(out, coordViol(why+"-"+kind+"-changed-offset", "%s by %s "+desc+"; committed offset of %s went %d -> %d (reply %s)", st.Ev, w.name(st.ReqMember), st.ReqGen, st.Pre.Gen, tp, st.PreOff[tp], st.PostOff[tp], r.str(w.name)))
 			}
+		} else if m := w.led.M[st.ReqMember]; accepted && m != nil && w.led.Failovers == 0 && st.Pre.Loaded && st.At.Sub(m.LastRefresh) > coordSessionTO+coordTickEvery {
+			// session expiries are part of the quantifier: a member whose session lapsed more than a whole
+			// cleanup interval ago has been through a cleanup tick after the lapse and is no longer in the
+			// group's current generation, so its request must be fenced (judged only without failover: a
+			// replacement coordinator restarts expiry when it loads the group)
+			kind := map[string]string{"commit": "commit", "hb": "heartbeat", "sync": "sync"}[k]
+			out = append(out, coordViol("session-expired-member-"+kind+"-accepted", "%s by %s was answered %s although its last join/successful heartbeat was %.1fs ago (session timeout %.0fs, cleanup interval %.0fs): the member should have been expired and fenced", st.Ev, w.name(st.ReqMember), r.str(w.name), st.At.Sub(m.LastRefresh).Seconds(), coordSessionTO.Seconds(), coordTickEvery.Seconds()))
 		} else if !accepted || k != "commit" {
 			if tp := coordOffsetsDiff(st.PreOff, st.PostOff); tp != "" {
 				out = append(out, coordViol("offset-changed-without-accepted-commit", "%s answered %s changed the committed offset of %s: %d -> %d", st.Ev, r.str(w.name), tp, st.PreOff[tp], st.PostOff[tp]))
@@ -77,7 +84,7 @@ func (coordC13) Check(w *coordWorld, st *coordStep) []xstate.Violation {
 
 func TestVerifC13(t *testing.T) {
 	coordRunCheck(t, "C13", func() coordOracle { return coordC13{} },
-		"BFS over all event histories (join/rejoin/sync/heartbeat/commit/leave/advance/failover events; commit, heartbeat and sync also from departed and never-issued member ids and with generation current-1) up to the depth bound, states merged by canonical key, every transition executed on the real GroupCoordinator; judged on every transition: a commit/heartbeat/sync whose member id is not in the group or whose generation is not the current one gets an error code and leaves every committed offset unchanged; generations in JoinGroup replies never decrease within one life of the group. distinct = distinct (store, event, reply, state change) observations; non-trivial = error code or observable change",
+		"BFS over all event histories (join/rejoin/sync/heartbeat/commit/leave/advance/failover events; commit, heartbeat and sync also from departed and never-issued member ids and with generation current-1) up to the depth bound, states merged by canonical key, every transition executed on the real GroupCoordinator; judged on every transition: a commit/heartbeat/sync whose member id is not in the group or whose generation is not the current one gets an error code and leaves every committed offset unchanged; a commit/heartbeat/sync from a member whose session lapsed more than a cleanup interval ago (no failover in the history) is not accepted; generations in JoinGroup replies never decrease within one life of the group. distinct = distinct (store, event, reply, state change) observations; non-trivial = error code or observable change",
 		[]string{"sequential histories only: the schedule dimension of C13 (OffsetCommit validating under the lock and writing after it) is a separate check",
 			"a member that is in the group and presents the current generation number counts as current even if it has not rejoined yet (Kafka accepts such commits too)"})
 }
